@@ -17,6 +17,8 @@
 #include <sys/stat.h>
 #include <unistd.h>
 #include <ftw.h>
+#include <fcntl.h>
+#include <sys/wait.h>
 
 #ifdef __SANITIZE_ADDRESS__
 #include <sanitizer/lsan_interface.h>
@@ -74,12 +76,8 @@ static void enc_n(const char *s, size_t n)
 }
 static void enc(const char *s) { if (!s) putchar('-'); else enc_n(s, strlen(s)); }
 /* a path the library hands back: strip the scratch root */
-static void enc_path(const char *s)
-{
-  if (s && strncmp(s, root, rootlen) == 0 && (s[rootlen] == '/' || s[rootlen] == 0))
-    { if (s[rootlen] == 0) enc("/"); else enc(s + rootlen); }
-  else enc(s);
-}
+static const char *virt(const char *s);
+static void enc_path(const char *s) { enc(virt(s)); }
 static void enc_list(char **l, size_t n)
 {
   for (size_t i = 0; i < n; i++) { if (i) putchar(','); enc(l[i]); }
@@ -88,6 +86,11 @@ static void enc_list(char **l, size_t n)
 static char *vpath(const char *p)     /* virtual path -> real path (malloc) */
 {
   char *r;
+  const char *at = strstr(p, "/@/");
+  if (p[0] == '/' && at) {            /* a component "@" stands for the scratch root itself (see decname) */
+    if (asprintf(&r, "%s%.*s%s%s", root, (int) (at - p), p, root, at + 2) < 0) abort();
+    return r;
+  }
   if (p[0] == '/') { if (asprintf(&r, "%s%s", root, p) < 0) abort(); }
   else r = strdup(p);                 /* relative: cwd is the root */
   return r;
@@ -127,9 +130,20 @@ FILE *__wrap_fopen(const char *path, const char *mode)
   return f;
 }
 
+static TL char virt_buf[3 * 4096];
 static const char *virt(const char *s)
 {
-  if (s && strncmp(s, root, rootlen) == 0 && (s[rootlen] == '/' || s[rootlen] == 0)) return s[rootlen] ? s + rootlen : "/";
+  if (s && strncmp(s, root, rootlen) == 0 && (s[rootlen] == '/' || s[rootlen] == 0)) {
+    const char *v = s[rootlen] ? s + rootlen : "/";
+    /* a scratch root INSIDE the rest (configuration names of the form "@/...", see decname) is dropped as well */
+    const char *in = strstr(v, root);
+    if (in && in > v && (in[rootlen] == '/' || in[rootlen] == 0) && strlen(v) < sizeof virt_buf) {
+      size_t k = (size_t) (in - v);
+      memcpy(virt_buf, v, k); strcpy(virt_buf + k, in + rootlen);
+      return virt_buf;
+    }
+    return v;
+  }
   return s;
 }
 
@@ -166,7 +180,15 @@ static void errloc2(char **fn, uint64_t *ln)
 }
 #define ERRLOC_NOTE() do { if (errloc_changed) { printf(" ERRLOC-CHANGED-BY-ASKING"); errloc_changed = 0; } } while (0)
 
-static void begin_lib(void) { in_lib = 1; n_open = 0; n_check = 0; }
+/* what errno holds when the library is entered says nothing about the call: it is set to a different left-over value
+   before every call (a directory opened for writing, a failed look-up, an overflowing conversion, ...) */
+static TL unsigned poison_no = 0;
+static void poison_errno(void)
+{
+  static const int left_over[] = { EISDIR, ENOENT, ERANGE, 0, EINVAL, EACCES, ENOMEM };
+  errno = left_over[poison_no++ % 7];
+}
+static void begin_lib(void) { in_lib = 1; n_open = 0; n_check = 0; poison_errno(); }
 static void end_lib(void)   { in_lib = 0; }
 static void print_logs(void)
 {
@@ -190,6 +212,18 @@ static char **dec_list(const char *tok, int *n)
   return r;
 }
 static void free_list(char **l) { for (int i = 0; l[i]; i++) free(l[i]); free(l); }
+
+/* a configuration name "@/x/y" stands for "<scratch root without its leading slash>/x/y": with the directory ""
+   (or NULL) the library then looks at "" + "/" + name, which is below the scratch root */
+static char *decname(const char *tok)
+{
+  char *d = dec(tok);
+  if (d && d[0] == '@' && d[1] == '/') {
+    char *r; if (asprintf(&r, "%s%s", root + 1, d + 1) < 0) abort();
+    free(d); return r;
+  }
+  return d;
+}
 
 /* map an optional virtual directory argument */
 static char *vdir(const char *tok)
@@ -323,6 +357,7 @@ static void do_get(econf_file *kf, int kd, const char *g, const char *k, const c
 {
   int has_def = def[0] != '-';
   econf_err e;
+  poison_errno();
 #define DELIVERED (e == ECONF_SUCCESS || (has_def && e == ECONF_NOKEY))
   switch (kd) {
   case 0: {
@@ -412,6 +447,7 @@ static TL unsigned set_no = 0;
 static void do_set(econf_file *kf, int kd, const char *g, const char *k, const char *text, const char *z)
 {
   econf_err e = 0;
+  poison_errno();
   if (++set_no % 2 == 0 && kd != 5) {
     /* every second call goes through the generic econf_setValue macro (no boolean there) */
     char *gg = (char *) g, *kk = (char *) k;
@@ -454,6 +490,7 @@ static void do_parse(int o, char **t)
   fwrite(content, 1, clen, f); fclose(f);
   if (objs[o]) { econf_free(objs[o]); objs[o] = NULL; }
   econf_err e;
+  poison_errno();
   if (!py && !jn) {
     e = econf_readFile(&objs[o], real, dl, cm);
   } else {
@@ -511,6 +548,30 @@ static void run_stream(FILE *in)
       printf("rc=%d\n", econf_newKeyFile_with_options(&objs[o], ""));
     } else if (!strcmp(c, "parse")) {
       do_parse(atoi(t[1]), t);
+    } else if (!strcmp(c, "parsepipe")) {
+      /* the file is a named pipe fed by another process: nothing but sequential reading works on it */
+      int o = atoi(t[1]);
+      char *path = dec(t[2]), *content = dec(t[3]), *dl = argstr(t[4], dlbuf), *cm = argstr(t[5], cmbuf);
+      size_t clen = declen(t[3]);
+      char *real = vpath(path); mkparents(real); unlink(real);
+      if (mkfifo(real, 0644)) { printf("driver-error mkfifo\n"); exit(3); }
+      fflush(out);
+      pid_t pid = fork();
+      if (pid == 0) {
+        int fd = open(real, O_WRONLY); size_t off = 0;
+        while (fd >= 0 && off < clen) { ssize_t w = write(fd, content + off, clen - off); if (w <= 0) break; off += (size_t) w; }
+        _exit(0);
+      }
+      if (objs[o]) { econf_free(objs[o]); objs[o] = NULL; }
+      poison_errno();
+      econf_err e = econf_readFile(&objs[o], real, dl, cm);
+      { int st; waitpid(pid, &st, 0); }
+      char *fn = NULL; uint64_t ln = 0;
+      errloc2(&fn, &ln);
+      if (e == ECONF_SUCCESS) printf("rc=0\n");
+      else { printf("rc=%d line=%" PRIu64 " file=", e, ln); enc_path(fn); ERRLOC_NOTE(); putchar('\n'); }
+      errloc_changed = 0;
+      free(fn); free(path); free(content); argfree(dl); argfree(cm); free(real);
     } else if (!strcmp(c, "set")) {
       char *g = dec(t[3]), *k = dec(t[4]), *text = dec(t[5]);
       do_set(obj(t[1]), kind_of(t[2]), g, k, text, t[6]);
@@ -538,6 +599,7 @@ static void run_stream(FILE *in)
       putchar('\n'); free(g);
     } else if (!strcmp(c, "merge")) {
       int d = atoi(t[1]); econf_file *m = NULL;
+      poison_errno();
       econf_err e = econf_mergeFiles(&m, obj(t[2]), obj(t[3]));
       if (objs[d] && objs[d] != m) econf_free(objs[d]);
       objs[d] = m;
@@ -613,7 +675,17 @@ static void run_stream(FILE *in)
       static TL unsigned sec_no = 0;
       int nolinks = t[3][0] == '1';
       econf_reset_security_settings();
-      switch (sec_no++ % 4) {
+      switch (sec_no++ % 6) {
+      case 4:                                             /* a redundant "allow" first: only the LAST call counts */
+        econf_followSymlinks(true);
+        if (t[1][0] != '-') econf_requireOwner((uid_t) atoi(t[1]));
+        if (t[2][0] != '-') econf_requireGroup((gid_t) atoi(t[2]));
+        econf_followSymlinks(!nolinks); break;
+      case 5:                                             /* the opposite request twice, then the wanted one once */
+        econf_followSymlinks(nolinks); econf_followSymlinks(nolinks);
+        if (t[2][0] != '-') econf_requireGroup((gid_t) atoi(t[2]));
+        if (t[1][0] != '-') econf_requireOwner((uid_t) atoi(t[1]));
+        econf_followSymlinks(!nolinks); break;
       case 0:
         if (t[1][0] != '-') econf_requireOwner((uid_t) atoi(t[1]));
         if (t[2][0] != '-') econf_requireGroup((gid_t) atoi(t[2]));
@@ -668,14 +740,14 @@ static void run_stream(FILE *in)
       end_lib(); finish_read(o, e, res); free(p); free(real); argfree(dl); argfree(cm);
     } else if (!strcmp(c, "readdirs")) {
       int o = atoi(t[1]); if (objs[o]) econf_free(objs[o]); objs[o] = NULL;
-      char *d1 = vdir(t[2]), *d2 = vdir(t[3]), *name = dec(t[4]), *sfx = dec(t[5]), *dl = argstr(t[6], dlbuf), *cm = argstr(t[7], cmbuf);
+      char *d1 = vdir(t[2]), *d2 = vdir(t[3]), *name = decname(t[4]), *sfx = dec(t[5]), *dl = argstr(t[6], dlbuf), *cm = argstr(t[7], cmbuf);
       econf_file *res = NULL; begin_lib();
       econf_err e = cb_mode ? econf_readDirsWithCallback(&res, d1, d2, name, sfx, dl, cm, the_callback, &cb_data_token)
                             : econf_readDirs(&res, d1, d2, name, sfx, dl, cm);
       end_lib(); finish_read(o, e, res); free(d1); free(d2); free(name); free(sfx); argfree(dl); argfree(cm);
     } else if (!strcmp(c, "readconfig")) {
       int o = atoi(t[1]);
-      char *proj = dec(t[2]), *usr = dec(t[3]), *name = dec(t[4]), *sfx = dec(t[5]), *dl = argstr(t[6], dlbuf), *cm = argstr(t[7], cmbuf);
+      char *proj = dec(t[2]), *usr = dec(t[3]), *name = decname(t[4]), *sfx = dec(t[5]), *dl = argstr(t[6], dlbuf), *cm = argstr(t[7], cmbuf);
       econf_file *res = objs[o];
       /* without a handle (or with one that names no directories) the library looks below the REAL /usr, /run and /etc:
          only allowed for project names that cannot exist there */
@@ -686,7 +758,7 @@ static void run_stream(FILE *in)
                             : econf_readConfig(&res, proj, usr, name, sfx, dl, cm);
       end_lib(); finish_read(o, e, res); free(proj); free(usr); free(name); free(sfx); argfree(dl); argfree(cm);
     } else if (!strcmp(c, "history")) {
-      char *d1 = vdir(t[1]), *d2 = vdir(t[2]), *name = dec(t[3]), *sfx = dec(t[4]), *dl = argstr(t[5], dlbuf), *cm = argstr(t[6], cmbuf);
+      char *d1 = vdir(t[1]), *d2 = vdir(t[2]), *name = decname(t[3]), *sfx = dec(t[4]), *dl = argstr(t[5], dlbuf), *cm = argstr(t[6], cmbuf);
       econf_file **files = NULL; size_t n = 0; begin_lib();
       econf_err e = cb_mode ? econf_readDirsHistoryWithCallback(&files, &n, d1, d2, name, sfx, dl, cm, the_callback, &cb_data_token)
                             : econf_readDirsHistory(&files, &n, d1, d2, name, sfx, dl, cm);
@@ -698,7 +770,7 @@ static void run_stream(FILE *in)
       free(d1); free(d2); free(name); free(sfx); argfree(dl); argfree(cm);
     } else if (!strcmp(c, "histmerge")) {
       /* the caller merges the history itself, left to right, with the public econf_mergeFiles */
-      char *d1 = vdir(t[1]), *d2 = vdir(t[2]), *name = dec(t[3]), *sfx = dec(t[4]), *dl = argstr(t[5], dlbuf), *cm = argstr(t[6], cmbuf);
+      char *d1 = vdir(t[1]), *d2 = vdir(t[2]), *name = decname(t[3]), *sfx = dec(t[4]), *dl = argstr(t[5], dlbuf), *cm = argstr(t[6], cmbuf);
       econf_file **files = NULL; size_t n = 0;
       econf_err e = cb_mode ? econf_readDirsHistoryWithCallback(&files, &n, d1, d2, name, sfx, dl, cm, the_callback, &cb_data_token)
                             : econf_readDirsHistory(&files, &n, d1, d2, name, sfx, dl, cm);
